@@ -216,6 +216,9 @@ where
     /// Returns [Err] if the stream fails to close gracefully.
     pub async fn finish(mut self) -> Result<()> {
         self.flush_batch()?;
+        // Frames that were only `start_send`ed (the final batch, anything `feed`ed) still sit in
+        // the framed writer; `finish` below talks to the QUIC stream directly and would drop them
+        self.stream.flush().await?;
         self.stream.finish().await
     }
 
